@@ -53,7 +53,7 @@ func FormatterOrder(res *fw.Result) error {
 			closer, err := jsonrpc.NewMergeClient(context.Background(), "ws"+strings.TrimPrefix(ts.URL, "http"), "Server", []interface{}{&cl}, nil,
 				jsonrpc.WithMethodNameFormatter(lib),
 				jsonrpc.WithClientHandler("Impl", orderImpl{}),
-				jsonrpc.WithClientHandlerAlias(name("Client", "Double"), "Impl.Double"))
+				jsonrpc.WithClientHandlerAlias(name("Client", "Double"), name("Impl", "Double")))
 			if err != nil {
 				ts.Close()
 				return err
@@ -65,6 +65,28 @@ func FormatterOrder(res *fw.Result) error {
 			if err != nil || v != 42 {
 				res.Add(fw.Finding{Kind: "monitor", Signature: sig, Detail: fmt.Sprintf("the reverse call did not reach the client handler published as %q: Relay(21) = %d, %v", name("Client", "Double"), v, err),
 					Case: map[string]interface{}{"scenario": "formatter-order", "order": order, "reverse_name": name("Client", "Double")}})
+			}
+			// the same with the handler simply registered under the reverse namespace: client and server share
+			// the formatter, so the names agree without any alias
+			var cl2 struct {
+				Relay func(context.Context, int) (int, error)
+			}
+			closer2, err := jsonrpc.NewMergeClient(context.Background(), "ws"+strings.TrimPrefix(ts.URL, "http"), "Server", []interface{}{&cl2}, nil,
+				jsonrpc.WithMethodNameFormatter(lib),
+				jsonrpc.WithClientHandler("Client", orderImpl{}))
+			if err != nil {
+				closer()
+				ts.Close()
+				return err
+			}
+			ctx2, cancel2 := context.WithTimeout(context.Background(), 4*time.Second)
+			v2, err := cl2.Relay(ctx2, 21)
+			cancel2()
+			closer2()
+			if err != nil || v2 != 42 {
+				res.Add(fw.Finding{Kind: "monitor", Signature: fmt.Sprintf("reverse call under a formatter shared by both sides fmt=%v/%v/%q", f.Ns, f.Lower, f.Sep),
+					Detail: fmt.Sprintf("client and server are configured with the same formatter and the client registers its handler under the reverse namespace, yet the reverse call does not reach it: Relay(21) = %d, %v", v2, err),
+					Case:   map[string]interface{}{"scenario": "formatter-shared", "order": order}})
 			}
 			res.Count("formatter-order." + order)
 			res.Eval(true, []interface{}{"formatter-order", f.Ns, f.Lower, f.Sep, order})
